@@ -313,7 +313,8 @@ def extract_nondet(trace):
         fn = st.get("sourceLocation", {}).get("function", "")
         if not lhs.startswith("goto_symex$$return_value"):
             continue
-        if "any_raw" not in fn and "any_raw" not in lhs:
+        # exactly Kani's rule: the assignment sits inside kani::any_raw_internal (one per any())
+        if not fn.startswith("kani::any_raw_"):
             continue
         v = st.get("value", {})
         b = v.get("binary")
